@@ -124,8 +124,13 @@ def replay(mod, check, prop, path, scratch):
     if status != "ok":
         print(f"INCONCLUSIVE property={prop} reason={status}: {res}")
         return 2
-    if res["violations"]:
-        for v in res["violations"]:
+    known = load_known().get(prop, {})
+    new = [v for v in res["violations"] if not (v.get("known_key") and v["known_key"] in known)]
+    for v in res["violations"]:
+        if v not in new:
+            print(f"KNOWN-FINDING: property={prop} {known[v['known_key']]}")
+    if new:
+        for v in new:
             print("replayed:", v["what"])
         print(f"VIOLATION property={prop} replay={path}")
         return 1
